@@ -11,7 +11,7 @@ use oracle::tables;
 use serde_json::json;
 
 pub const ID: &str = "C09";
-pub const FAMS: [&str; 10] = ["byte-at-position", "class-pattern", "two-bytes", "planted-foreign", "single-class-long", "three-bytes", "real-world-prefixes", "token-strings", "edit-session", "unicode-lookalikes"];
+pub const FAMS: [&str; 11] = ["byte-at-position", "class-pattern", "two-bytes", "planted-foreign", "single-class-long", "three-bytes", "real-world-prefixes", "token-strings", "edit-session", "unicode-lookalikes", "adjacent-pairs-in-long-strings"];
 
 const BG: [&[u8]; 3] = [b"0123456789", b"AZ $%*+-./:K7", b"az,!\x00\x7f\x80\xff@[`{"];
 const REPS: [[u8; 2]; 3] = [[b'0', b'9'], [b'A', b':'], [b'a', 0xE9]];
@@ -78,6 +78,31 @@ pub fn jobs(ctx: &Ctx) -> Vec<Job> {
         for b in 0..=255u8 {
             k += 1;
             jobs.push(explicit(FAMS[2], vec![a, b], k, ctx));
+        }
+    }
+    // every ordered pair (c, d) with c in the 45-character set and d any byte value, adjacent, inside strings long
+    // enough to be scanned a machine word (or a vector) at a time: background of 17..40 alphanumeric (or digit)
+    // characters, the pair at an offset that walks through all positions of an aligned 8- and 16-byte block (quick:
+    // two offsets per pair, thorough: all 16); classifiers that test several bytes at once have their blind spots
+    // between neighbouring bytes
+    {
+        let offsets: Vec<usize> = ctx.tier.pick(vec![0usize, 1], (0..16).collect());
+        let mut kk = 0usize;
+        for ci in 0..45usize {
+            let c = tables::alnum_char(ci);
+            for d in 0..=255u8 {
+                for &o in &offsets {
+                    kk += 1;
+                    k += 1;
+                    let off = if ctx.tier == crate::fw::Tier::Quick { (kk * 7 + o * 5) % 16 } else { o };
+                    let len = 17 + (kk % 24);
+                    let digits = kk % 3 == 0;
+                    let mut p: Vec<u8> = (0..len).map(|i| if digits { b'0' + ((i * 7 + kk) % 10) as u8 } else { tables::alnum_char((i * 11 + kk) % 45) }).collect();
+                    p[off] = c;
+                    p[off + 1] = d;
+                    jobs.push(explicit(FAMS[10], p, k, ctx));
+                }
+            }
         }
     }
     // what people put into QR codes: every dictionary prefix (URL schemes in both cases, WIFI:, vCard, tel:,
@@ -326,7 +351,7 @@ pub fn run(ctx: &Ctx) -> Report {
     let st = pool::run(&jobs, ctx.remaining(), |st, job, _| observe(ctx, st, job));
     let mut rep = Report::new(
         st,
-        "every job rotates through the eight combinations of {version pinned, level given, mask forced} (the decision may depend on none of them); jobs = all 256 byte values at every position of strings of length 1..8 over digit / alphanumeric / other backgrounds (27,648), all 3^L class patterns for L<=8 with two representative characters per class (19,682), all 256^2 two-byte strings (65,536), in the thorough tier ALL 256^3 three-byte strings (16,777,216), random strings of length <=1200 with one arbitrary byte planted at a random position, the dictionary prefix sweep, token strings, and edit sessions (a digits+alphanumerics+bytes text deleted from the end and typed back character by character, then edited in the middle, every intermediate text built on the same thread); every build uses automatic mode; observed: QRCode.mode == oracle class (45-character set spelled out independently), the mode indicator decoded from the symbol, and the reference decode equals the input byte for byte; distinct key = payload hash; non-trivial = every distinct string",
+        "every job rotates through the eight combinations of {version pinned, level given, mask forced} (the decision may depend on none of them); jobs = all 256 byte values at every position of strings of length 1..8 over digit / alphanumeric / other backgrounds (27,648), all 3^L class patterns for L<=8 with two representative characters per class (19,682), all 256^2 two-byte strings (65,536), every ordered pair (character of the 45-set, any byte) adjacent at rotating offsets of an aligned 16-byte block inside strings of 17-40 characters (23,040; thorough: all 16 offsets), in the thorough tier ALL 256^3 three-byte strings (16,777,216), random strings of length <=1200 with one arbitrary byte planted at a random position, the dictionary prefix sweep, token strings, and edit sessions (a digits+alphanumerics+bytes text deleted from the end and typed back character by character, then edited in the middle, every intermediate text built on the same thread); every build uses automatic mode; observed: QRCode.mode == oracle class (45-character set spelled out independently), the mode indicator decoded from the symbol, and the reference decode equals the input byte for byte; distinct key = payload hash; non-trivial = every distinct string",
     );
     rep.exhaustive = Some(true);
     rep.expected_sets = vec![("classes", 3), ("byte_values_seen", 256)];
